@@ -1687,6 +1687,12 @@ class HTTP11ClientProtocol(Protocol):
         try:
             self._parser.dataReceived(bytes)
         except BaseException:
+            if self._state == "TRANSMITTING":
+                # The response cannot be parsed and the request has not been
+                # completely written yet: nothing else will connect the
+                # parser's Deferred to the one returned by request().
+                self._state = "TRANSMITTING_AFTER_RECEIVING_RESPONSE"
+                self._responseDeferred.chainDeferred(self._finishedRequest)
             self._giveUp(Failure())
 
     def connectionLost(self, reason):
